@@ -97,6 +97,27 @@ func patsArg(pats []string, file string) string {
 	return strings.Join(parts, ",")
 }
 
+// rules that take files out of the analysis; the files under sub/ are used by no other file
+var c17SkipRules = []string{"sub/dir/", "sub/", "dir/", "sub/axlua.lua", "axlua", "sub/dir", "nomatch/", "zzz.lua", "sub/d.r/"}
+
+// c17Skipped: the documented meaning of an analysis-ignore rule: a rule ending in .lua names files (substring
+// or regular expression of the path), any other rule names folders (matched against the folder part)
+func c17Skipped(rule, rel string) bool {
+	target := rel
+	if !strings.HasSuffix(rule, ".lua") {
+		i := strings.LastIndex(rel, "/")
+		if i < 0 {
+			return false
+		}
+		target = rel[:i+1]
+	}
+	if strings.Contains(target, rule) {
+		return true
+	}
+	re, err := regexp.Compile(rule)
+	return err == nil && re.MatchString(target)
+}
+
 type c17Rule struct {
 	file  string
 	types []int
@@ -153,7 +174,7 @@ func runC17(res *lib.Result, tier string, seed int64, args []string) error {
 		nUnit, nE2E = 400000, 1500
 	}
 	res.Rule = "unit: random sequences of 1-2 flag vectors + ignore-pattern lists (literal and regex) through the real HandleChangeCheckList/IsIgnoreErrorFile/IsSpecialCheck vs model (fromFlags/isIgnored/isSpecialCheck) and vs S-conf.shown; " +
-		"e2e: real server on a workspace triggering types 1-21 in three files under a random configuration given by initializationOptions, by a later didChangeConfiguration, or by luahelper.json (there also with 0-3 per-file type rules IgnoreFileErrTypes), compared with the documented filter of the all-enabled run; non-trivial = master on and at least one switch off or one pattern; distinct by canonical configuration"
+		"e2e: real server on a workspace triggering types 1-21 in three files under a random configuration given by initializationOptions, by a later didChangeConfiguration, or by luahelper.json (there also with 0-3 per-file type rules IgnoreFileErrTypes), optionally with a rule that takes a file or a folder out of the analysis (IgnoreFileOrDir / IgnoreFileOrFloder), compared with the documented filter of the all-enabled run; non-trivial = master on and at least one switch off or one pattern; distinct by canonical configuration"
 	drv, err := lib.StartDriver()
 	if err != nil {
 		return err
@@ -292,11 +313,21 @@ func runC17(res *lib.Result, tier string, seed int64, args []string) error {
 		}
 		var sess *lib.Session
 		var rules []c17Rule
+		// a file / folder rule that removes the ANALYSIS of the matching files (IgnoreFileOrDir in the client
+		// settings, IgnoreFileOrFloder in luahelper.json); only files nothing else depends on are named
+		skipRule := ""
+		if i >= len(suspects) && channel != 1 && r.Chance(1, 2) {
+			skipRule = c17SkipRules[r.Intn(len(c17SkipRules))]
+		}
 		jsonPath := filepath.Join(dir, "luahelper.json")
 		os.Remove(jsonPath)
 		switch channel {
 		case 0:
-			sess, err = lib.StartSession(dir, optsFromFlags(fl, pats))
+			o := optsFromFlags(fl, pats)
+			if skipRule != "" {
+				o["IgnoreFileOrDir"] = []string{skipRule}
+			}
+			sess, err = lib.StartSession(dir, o)
 		case 1:
 			sess, err = lib.StartSession(dir, optsFromFlags(allOn, nil))
 			if err == nil {
@@ -334,8 +365,13 @@ func runC17(res *lib.Result, tier string, seed int64, args []string) error {
 					}
 				}
 				sort.Ints(tys)
+				usedFile := map[string]bool{}
 				for k := 1 + r.Intn(3); k > 0; k-- {
 					rule := c17Rule{file: c17RuleFiles[r.Intn(len(c17RuleFiles))]}
+					if usedFile[rule.file] {
+						continue // one rule per File value: the configuration is a map keyed by it
+					}
+					usedFile[rule.file] = true
 					for n := 1 + r.Intn(3); n > 0; n-- {
 						rule.types = append(rule.types, tys[r.Intn(len(tys))])
 					}
@@ -349,6 +385,9 @@ func runC17(res *lib.Result, tier string, seed int64, args []string) error {
 					rs = append(rs, fmt.Sprintf(`{"File": %s, "Types": %s}`, mustJSON(ru.file), mustJSON(ru.types)))
 				}
 				rulesJSON = `, "IgnoreFileErrTypes": [` + strings.Join(rs, ", ") + `]`
+			}
+			if skipRule != "" {
+				rulesJSON += `, "IgnoreFileOrFloder": [` + mustJSON(skipRule) + `]`
 			}
 			js := fmt.Sprintf(`{"ShowWarnFlag": %d, "IgnoreErrorTypes": %s, "IgnoreFileErr": %s%s}`, show, mustJSON(off), mustJSON(pats), rulesJSON)
 			if len(off) == 0 {
@@ -365,7 +404,7 @@ func runC17(res *lib.Result, tier string, seed int64, args []string) error {
 		sess.Close()
 		os.Remove(jsonPath)
 		// expected: documented filter of the baseline (decision per (file,type) from the driver's spec answer)
-		caseText := fmt.Sprintf("channel=%d flags=%s pats=%v rules=%v", channel, flagBits(fl), pats, rules)
+		caseText := fmt.Sprintf("channel=%d flags=%s pats=%v rules=%v analysis-ignore=%q", channel, flagBits(fl), pats, rules, skipRule)
 		expect := map[string]bool{}
 		specialOff := false
 		for _, d := range baseline {
@@ -397,6 +436,9 @@ func runC17(res *lib.Result, tier string, seed int64, args []string) error {
 				} else if ans != "R ign=0" {
 					return fmt.Errorf("bad driver answer %q to confrules", ans)
 				}
+			}
+			if shown && skipRule != "" && c17Skipped(skipRule, d.file) {
+				shown = false // the file is not analysed at all
 			}
 			if shown {
 				expect[d.key] = true
@@ -446,6 +488,15 @@ func runC17(res *lib.Result, tier string, seed int64, args []string) error {
 		refIgnored := false
 		for _, p := range pats {
 			if re, err := regexp.Compile(p); strings.Contains(filepath.Join(dir, "other.lua"), p) || (err == nil && re.MatchString(filepath.Join(dir, "other.lua"))) {
+				refIgnored = true
+			}
+		}
+		for _, ru := range rules {
+			has11 := false
+			for _, t := range ru.types {
+				has11 = has11 || t == 11
+			}
+			if re, err := regexp.Compile(ru.file); has11 && (strings.Contains(filepath.Join(dir, "other.lua"), ru.file) || (err == nil && re.MatchString(filepath.Join(dir, "other.lua")))) {
 				refIgnored = true
 			}
 		}
